@@ -65,8 +65,8 @@ M = [
   "\t\t    st->num_timers - 1 == (1 << (st->rat_depth *\n\t\t\t\t\t     IV_TIMER_SPLIT_BITS))) {",
   ["C05"], "capacity boundary: level dropped at 129 -> 128, slot 128 is freed with a live timer in it"),
  ("c05_grow_one_late", "iv_timer.c",
-  "\tif (index >> ((st->rat_depth + 1) * IV_TIMER_SPLIT_BITS) != 0) {",
-  "\tif ((index - 1) >> ((st->rat_depth + 1) * IV_TIMER_SPLIT_BITS) != 0) {",
+  "\t    index >> ((st->rat_depth + 1) * IV_TIMER_SPLIT_BITS) != 0) {",
+  "\t    (index - 1) >> ((st->rat_depth + 1) * IV_TIMER_SPLIT_BITS) != 0) {",
   ["C05"], "capacity boundary: timer 128 is stored in slot 0 of the old leaf and lost at the next growth"),
  ("c05_expired_lifo", "iv_timer.c",
   "\t\tiv_list_add_tail(&t->list_expired, &timers);",
